@@ -62,11 +62,11 @@ theorem Equiv.merge {P : Nat} {b c b' : List Rec} (e : Equiv P b c) (h0 : Nat) (
 
 theorem SInv.of_pending {s : Store} {d : Disk} {A C C' : List Rec} (i : SInv s d A C) (p : List Rec)
     (e : Equiv (maxPrune A) p C') : SInv { s with pending := p } d A C' :=
-  ⟨i.ewf, i.rwf, i.cov, i.pruned, i.view, e, i.wr, i.wrz, i.wrr, i.next, i.nogarb⟩
+  ⟨i.ewf, i.rwf, i.cov, i.pruned, i.view, e, i.wr, i.wrz, i.wrr, i.next, i.seqNext, i.nogarb⟩
 
 theorem SInv.of_calls {s : Store} {d : Disk} {A C C' : List Rec} (i : SInv s d A C)
     (e : Equiv (maxPrune A) s.pending C') : SInv s d A C' :=
-  ⟨i.ewf, i.rwf, i.cov, i.pruned, i.view, e, i.wr, i.wrz, i.wrr, i.next, i.nogarb⟩
+  ⟨i.ewf, i.rwf, i.cov, i.pruned, i.view, e, i.wr, i.wrz, i.wrr, i.next, i.seqNext, i.nogarb⟩
 
 theorem setEntry_inv {s : Store} {d : Disk} {A C : List Rec} (i : SInv s d A C) (hc : s.closed = false) (h e : Nat) :
     (s.setEntry h e).2 = .ok ∧ (s.setEntry h e).1.closed = false ∧
@@ -107,11 +107,54 @@ theorem deleteEntries_inv {s : Store} {d : Disk} {A C : List Rec} (i : SInv s d 
 theorem covers_nil (w : Nat) : Covers ({ pruned := w } : Idx) [] :=
   ⟨fun _ _ _ h _ => (by cases h), fun _ _ h => (by cases h)⟩
 
+theorem foldl_max_ge {α : Type} (g : α → Nat) (l : List α) (m0 : Nat) :
+    m0 ≤ l.foldl (fun m p => max m (g p)) m0 ∧ ∀ p ∈ l, g p ≤ l.foldl (fun m p => max m (g p)) m0 := by
+  induction l generalizing m0 with
+  | nil => simp
+  | cons a l ih =>
+    simp only [List.foldl_cons]
+    obtain ⟨h1, h2⟩ := ih (max m0 (g a))
+    refine ⟨by omega, ?_⟩
+    intro p hp
+    rcases List.mem_cons.mp hp with rfl | h
+    · omega
+    · exact h2 p h
+
+theorem seqAfterFile_ge (m : Nat) (f : LogFile) (h : SeqOK f) :
+    m ≤ seqAfterFile m f ∧ ∀ q ∈ f.seqs, q < seqAfterFile m f := by
+  unfold seqAfterFile
+  obtain ⟨v1, v2⟩ := visibleFrom_all 0 f.batches f.seqs h.len h.inc h.pos h.nonempty
+  obtain ⟨g1, g2⟩ := foldl_max_ge (fun (p : List Rec × Nat) => p.2 + p.1.length) (visibleFrom 0 f.batches f.seqs) m
+  refine ⟨g1, ?_⟩
+  intro q hq
+  rw [← v2] at hq
+  obtain ⟨p, hp, rfl⟩ := List.mem_map.mp hq
+  have hb : p.1 ∈ f.batches := by rw [← v1]; exact List.mem_map_of_mem (f := (·.1)) hp
+  have hne := h.nonempty p.1 hb
+  have hlen : 0 < p.1.length := List.length_pos_iff.mpr hne
+  have := g2 p hp
+  omega
+
+theorem foldl_seqAfter_ge (fs : List LogFile) (m : Nat) (hs : ∀ f ∈ fs, SeqOK f) :
+    m ≤ fs.foldl seqAfterFile m ∧ ∀ F ∈ fs, ∀ q ∈ F.seqs, q < fs.foldl seqAfterFile m := by
+  induction fs generalizing m with
+  | nil => simp
+  | cons f fs ih =>
+    simp only [List.foldl_cons]
+    obtain ⟨a1, a2⟩ := seqAfterFile_ge m f (hs f List.mem_cons_self)
+    obtain ⟨b1, b2⟩ := ih (seqAfterFile m f) (fun g hg => hs g (List.mem_cons_of_mem _ hg))
+    refine ⟨by omega, ?_⟩
+    intro F hF q hq
+    rcases List.mem_cons.mp hF with rfl | h
+    · have := a2 q hq; omega
+    · exact b2 F h q hq
+
 theorem open_inv {d : Disk} {A : List Rec} (i : DInv d A) :
     ∃ s d', openStore d = .ok (s, d') ∧ DInv d' A ∧ SInv s d' A [] ∧ s.closed = false := by
   refine ⟨_, _, openStore_ok d i.garb, ?_, ?_, rfl⟩
   · refine ⟨numsAsc_of_map_eq (clearLastGarbage_nums d.files).symm i.asc,
-      garbageOnlyLast_of_clean _ (clearLastGarbage_all_clean d.files i.garb), ?_, i.zclean, ?_, i.zlow, ?_, i.zlowAlt⟩
+      garbageOnlyLast_of_clean _ (clearLastGarbage_all_clean d.files i.garb), ?_, i.zclean, ?_, i.zlow, ?_, i.zlowAlt,
+      seqOK_clearLastGarbage d.files i.seq, i.zseq⟩
     · intro ⟨f, hf, hg⟩
       have := clearLastGarbage_all_clean d.files i.garb f hf
       simp [this] at hg
@@ -121,11 +164,17 @@ theorem open_inv {d : Disk} {A : List Rec} (i : DInv d A) :
       show Presents (w.getD 0) (recsOf (clearLastGarbage d.files)) A
       rw [recsOf_clearLastGarbage]; exact i.presAlt w hw
   · have w0 := empty_EWF (d.wm.getD 0)
-    obtain ⟨cp, cv⟩ := replayFiles_closed _ (clearLastGarbage d.files) w0
+    have hs' := seqOK_clearLastGarbage d.files i.seq
+    obtain ⟨cp, cv⟩ := replayFiles_closed _ (clearLastGarbage d.files) hs' w0
     rw [recsOf_clearLastGarbage] at cp cv
     have hw : max (d.wm.getD 0) (maxPrune (recsOf d.files)) = maxPrune A := i.pres.wm
-    refine ⟨replayFiles_EWF _ _ w0, replayFiles_RWF _ _ (empty_RWF _), ?_, ?_, ?_, Equiv.rfl' _ _, ?_, ?_, ?_, ?_, ?_⟩
-    · have := replayFiles_covers _ (clearLastGarbage d.files) [] (covers_nil (d.wm.getD 0))
+    refine ⟨replayFiles_EWF _ _ hs' w0, replayFiles_RWF _ _ hs' (empty_RWF _), ?_, ?_, ?_, Equiv.rfl' _ _, ?_, ?_, ?_, ?_,
+      ?_, ?_⟩
+    rotate_right 2
+    · obtain ⟨g1, g2⟩ := foldl_seqAfter_ge (clearLastGarbage d.files) 1 hs'
+      exact ⟨by show 0 < (clearLastGarbage d.files).foldl seqAfterFile 1; omega, g2⟩
+    · intro _; exact clearLastGarbage_all_clean d.files i.garb
+    · have := replayFiles_covers _ (clearLastGarbage d.files) hs' [] (covers_nil (d.wm.getD 0))
       simpa using this
     · show (replayFiles _ _).pruned = _
       rw [cp]; exact hw
@@ -139,6 +188,5 @@ theorem open_inv {d : Disk} {A : List Rec} (i : DInv d A) :
     · intro hn; exact absurd rfl hn
     · intro hn; exact absurd rfl hn
     · exact nextNum_gt _
-    · intro _; exact clearLastGarbage_all_clean d.files i.garb
 
 end Juno.C14
